@@ -36,6 +36,10 @@ type c15Ref struct {
 	ID    int
 	Style int  // rendering variant
 	Guard bool // inside a function body: placed under `if false`
+	// Hidden: not written in the source. An 'X' occurrence that the source has anyway: the blank identifier on the
+	// left of a declaration, which yaegi looks up like any identifier and finds the symbol `_` of the LAST
+	// `var ..., _, ... = e1, ...` declaration of the package (all blank variables share that symbol).
+	Hidden bool
 }
 
 type c15Init struct {
@@ -54,6 +58,7 @@ type c15Spec struct {
 	Names []int
 	Inits []c15Init // NoInit: none; Pair: one per name; Call: exactly one
 	File  int
+	Typed bool // explicit type: var x int = e; var x, y int = e1, e2; var x, y int = f()
 }
 
 type c15Func struct {
@@ -98,6 +103,7 @@ type c15Pkg struct {
 	Main    bool
 	NFiles  int
 	Grouped map[int]bool // spec index -> starts a `var ( ... )` group with the next spec
+	Blank   map[int]bool // variable ids written `_` in the source (a fresh id each: nothing can refer to them)
 }
 
 type c15Prog struct {
@@ -367,7 +373,7 @@ func (p *c15Pkg) region() string {
 			}
 		}
 	}
-	fm, ng, fd := false, false, false
+	fm, ng, fd, bl := false, false, false, false
 	for _, s := range p.Specs {
 		for _, in := range s.Inits {
 			for _, r := range in.Refs {
@@ -377,7 +383,11 @@ func (p *c15Pkg) region() string {
 						fm = true
 					}
 				case 'X':
-					fd = true
+					if r.Hidden {
+						bl = true
+					} else {
+						fd = true
+					}
 					if scall[r.ID] {
 						ng = true
 					}
@@ -396,6 +406,8 @@ func (p *c15Pkg) region() string {
 		return "multi-nonglobal"
 	case fd:
 		return "false-dep"
+	case bl:
+		return "blank-shared"
 	case multi:
 		return "multi-unit"
 	}
@@ -478,6 +490,7 @@ const (
 	c15MultiUnit
 	c15FalseDep
 	c15Cycle
+	c15Blanks // plain, several declarations with blank variables
 )
 
 type c15Gen struct {
@@ -491,7 +504,7 @@ func (g *c15Gen) log() int { g.nextLg++; return g.nextLg }
 
 func (g *c15Gen) body(mode c15Mode, nSpecs int) *c15Pkg {
 	r := g.r
-	p := &c15Pkg{Grouped: map[int]bool{}}
+	p := &c15Pkg{Grouped: map[int]bool{}, Blank: map[int]bool{}}
 	sorted := mode == c15MainSorted
 	rich := mode == c15MainSorted
 	// 1. spec skeletons
@@ -504,16 +517,51 @@ func (g *c15Gen) body(mode c15Mode, nSpecs int) *c15Pkg {
 			if (rich || mode == c15MultiUnit) && r.chance(40) {
 				s.Names = append(s.Names, g.id())
 			}
-		case k < 25 && (rich || mode == c15MultiNG):
+		case k < 25 && (rich || mode == c15MultiNG || mode == c15Blanks):
 			s.Kind = c15Call
 			s.Names = append(s.Names, g.id())
 			if r.chance(25) {
 				s.Names = append(s.Names, g.id())
 			}
-		case k < 40 && (rich || mode == c15MultiUnit):
+		case k < 40 && (rich || mode == c15MultiUnit || mode == c15Blanks):
 			s.Names = append(s.Names, g.id())
 		}
+		s.Typed = s.Kind != c15NoInit && r.chance(25)
 		p.Specs = append(p.Specs, s)
+	}
+	// 1b. blank variables: at most one declaration with blanks outside the stream that aims at several of them
+	nBlank := 0
+	switch k := r.intn(100); {
+	case mode == c15Blanks:
+		nBlank = 2 + r.intn(2)
+	case k < 50:
+		nBlank = 1
+	}
+	for tries := 0; nBlank > 0 && tries < 20; tries++ {
+		s := &p.Specs[r.intn(nSpecs)]
+		if r.bool() { // half of the time a declaration of several variables, when there is one
+			var multi []int
+			for si, t := range p.Specs {
+				if len(t.Names) > 1 && t.Kind != c15NoInit {
+					multi = append(multi, si)
+				}
+			}
+			if len(multi) > 0 {
+				s = &p.Specs[multi[r.intn(len(multi))]]
+			}
+		}
+		if s.Kind == c15NoInit || p.Blank[s.Names[0]] || p.Blank[s.Names[len(s.Names)-1]] {
+			continue
+		}
+		s.Typed = r.bool()
+		if len(s.Names) == 1 || r.chance(40) {
+			for _, n := range s.Names {
+				p.Blank[n] = true
+			}
+		} else {
+			p.Blank[s.Names[r.intn(len(s.Names))]] = true
+		}
+		nBlank--
 	}
 	// 2. hidden rank: initialisers may depend (in Go's sense) only on variables of lower rank => no cycle
 	order := make([]int, nSpecs)
@@ -538,6 +586,9 @@ func (g *c15Gen) body(mode c15Mode, nSpecs int) *c15Pkg {
 	for si, s := range p.Specs {
 		for _, n := range s.Names {
 			rankOfVar[n] = rank[si]
+			if p.Blank[n] {
+				continue
+			}
 			allVars = append(allVars, n)
 			// yaegi cannot read a variable declared by `var x, y = f()` from a function body (it panics
 			// in the host: the symbol is not global); unrelated to ordering, kept out of the programs
@@ -614,13 +665,17 @@ func (g *c15Gen) body(mode c15Mode, nSpecs int) *c15Pkg {
 				if sj == si || (sorted && sj >= si) {
 					continue
 				}
-				cands = append(cands, s.Names...)
+				for _, n := range s.Names {
+					if !p.Blank[n] {
+						cands = append(cands, n)
+					}
+				}
 			}
 			if len(cands) > 0 {
 				in.Refs = append(in.Refs, c15Ref{K: 'X', ID: cands[r.intn(len(cands))], Style: r.intn(2)})
 			}
 		}
-		if r.chance(12) {
+		if len(allVars) > 0 && r.chance(12) {
 			in.Refs = append(in.Refs, c15Ref{K: 'N', ID: allVars[r.intn(len(allVars))]})
 		}
 		// shuffle the argument order
@@ -645,7 +700,7 @@ func (g *c15Gen) body(mode c15Mode, nSpecs int) *c15Pkg {
 		// close a direct cycle: some variable with a dependency gets referenced back by it
 		for si := range p.Specs {
 			s := &p.Specs[si]
-			if s.Kind == c15Pair && len(s.Inits[0].Refs) > 0 && s.Inits[0].Refs[0].K == 'V' {
+			if s.Kind == c15Pair && !p.Blank[s.Names[0]] && len(s.Inits[0].Refs) > 0 && s.Inits[0].Refs[0].K == 'V' {
 				dep := s.Inits[0].Refs[0].ID
 				for sj := range p.Specs {
 					t := &p.Specs[sj]
@@ -657,6 +712,7 @@ func (g *c15Gen) body(mode c15Mode, nSpecs int) *c15Pkg {
 			}
 		}
 	}
+	p.blankSymbol()
 	// 5. files, groups, init functions
 	p.NFiles = 1
 	if r.chance(45) {
@@ -875,6 +931,45 @@ func (p *c15Pkg) declText(d c15Decl) string {
 }
 
 // bodyFor generates package bodies until the wanted relation to the side condition holds (bounded).
+// blankSymbol adds what the source says without our writing it: every declaration with a blank on its left mentions
+// the identifier `_`. yaegi's package scope has ONE symbol `_`, (re)declared by each declaration with a blank in source
+// order (gta): `var ..., _, ... = e1, ...` makes it a global variable owned by that declaration, `var _, x = f()`
+// makes it a non-global symbol without declaration (compDefineX). So, when the last declaration with a blank is of the
+// first form, each other declaration with a blank depends on it for yaegi; when it is of the second form nothing
+// depends on anything. For Go a blank denotes nothing: an 'X' occurrence.
+func (p *c15Pkg) blankSymbol() {
+	owner, ownerID := -1, 0
+	for si, s := range p.Specs {
+		if s.Kind == c15NoInit {
+			continue
+		}
+		for _, n := range s.Names {
+			if p.Blank[n] {
+				owner, ownerID = si, n
+				if s.Kind == c15Call {
+					owner = -1
+				}
+				break
+			}
+		}
+	}
+	if owner < 0 {
+		return
+	}
+	for si := range p.Specs {
+		s := &p.Specs[si]
+		if si == owner || len(s.Inits) == 0 {
+			continue
+		}
+		for _, n := range s.Names {
+			if p.Blank[n] {
+				s.Inits[0].Refs = append(s.Inits[0].Refs, c15Ref{K: 'X', ID: ownerID, Hidden: true})
+				break
+			}
+		}
+	}
+}
+
 func (g *c15Gen) bodyFor(mode c15Mode, nSpecs int) *c15Pkg {
 	var p *c15Pkg
 	for try := 0; try < 40; try++ {
@@ -1080,7 +1175,17 @@ func c15Witnesses() []*c15Prog {
 			mk(9, []int{1, 2}, wPlain(), []int{9}, true)}, Entry: 9},
 		c15Single(c15Body([]c15Spec{c15V(1, c15RV(2)), c15V(2, c15RV(1)), c15V(3)})),
 		c15WSpecial(),
+		c15WBlanks(),
 	}
+}
+
+// c15WBlanks is w_blanks of coq/Init/Proofs.v: var _ = lg(1); var _ int = lg(2); var _ = lg(3).
+func c15WBlanks() *c15Prog {
+	p := c15Body([]c15Spec{c15V(1), c15V(2), c15V(3)})
+	p.Specs[1].Typed = true
+	p.Blank = map[int]bool{1: true, 2: true, 3: true}
+	p.blankSymbol()
+	return c15Single(p)
 }
 
 // c15WSpecial is w_special of coq/Init/Proofs.v: look-alikes of init and main in every package.
@@ -1151,31 +1256,40 @@ func (p *c15Pkg) refExpr(r c15Ref) string {
 func (p *c15Pkg) initExpr(fn string, in c15Init) string {
 	args := []string{strconv.Itoa(in.Log)}
 	for _, r := range in.Refs {
-		args = append(args, p.refExpr(r))
+		if !r.Hidden {
+			args = append(args, p.refExpr(r))
+		}
 	}
 	return fn + "(" + strings.Join(args, ", ") + ")"
 }
 
-func vnames(ns []int) string {
+func (p *c15Pkg) vnames(ns []int) string {
 	l := make([]string, len(ns))
 	for i, n := range ns {
 		l[i] = fmt.Sprintf("v%d", n)
+		if p.Blank[n] {
+			l[i] = "_"
+		}
 	}
 	return strings.Join(l, ", ")
 }
 
 func (p *c15Pkg) specText(s c15Spec) string {
+	typ := ""
+	if s.Typed {
+		typ = " int"
+	}
 	switch s.Kind {
 	case c15NoInit:
-		return vnames(s.Names) + " int"
+		return p.vnames(s.Names) + " int"
 	case c15Call:
-		return vnames(s.Names) + " = " + p.initExpr(fmt.Sprintf("lg%d", len(s.Names)), s.Inits[0])
+		return p.vnames(s.Names) + typ + " = " + p.initExpr(fmt.Sprintf("lg%d", len(s.Names)), s.Inits[0])
 	}
 	es := make([]string, len(s.Inits))
 	for i, in := range s.Inits {
 		es[i] = p.initExpr("lg", in)
 	}
-	return vnames(s.Names) + " = " + strings.Join(es, ", ")
+	return p.vnames(s.Names) + typ + " = " + strings.Join(es, ", ")
 }
 
 // files renders the package; keys are file names a.go, b.go, c.go.
@@ -1221,7 +1335,7 @@ func (p *c15Pkg) files(prefix string) map[string]string {
 			for _, s := range p.Specs {
 				for _, in := range s.Inits {
 					for _, r := range in.Refs {
-						if (r.K == 'X' && r.Style == 1 || r.K == 'N') && !structs[r.ID] {
+						if (r.K == 'X' && r.Style == 1 && !r.Hidden || r.K == 'N') && !structs[r.ID] {
 							structs[r.ID] = true
 							fmt.Fprintf(&b, "type s%d struct{ v%d int }\n", r.ID, r.ID)
 						}
@@ -1494,9 +1608,11 @@ func runC15(args []string) error {
 			c.stream, c.prog = "multi-nonglobal", g.program(c15MultiNG, multi, false)
 		case k < 84:
 			c.stream, c.prog = "multi-unit", g.program(c15MultiUnit, multi, false)
-		case k < 91:
+		case k < 89:
 			c.stream, c.prog = "false-dep", g.program(c15FalseDep, multi, false)
-		case k < 97:
+		case k < 94:
+			c.stream, c.prog = "blank-shared", g.program(c15Blanks, multi, false)
+		case k < 98:
 			m := c15MainSorted
 			if g.r.bool() {
 				m = c15MainPlain
@@ -1570,6 +1686,40 @@ func runC15(args []string) error {
 		}
 		seenKinds := map[string]bool{}
 		for _, p := range c.prog.Pkgs {
+			nb := 0
+			for _, s := range p.Specs {
+				b := 0
+				for _, n := range s.Names {
+					if p.Blank[n] {
+						b++
+					}
+				}
+				k := map[int]string{c15Pair: "pair", c15Call: "call", c15NoInit: "noinit"}[s.Kind]
+				if s.Typed {
+					seenKinds["decl:typed "+k+fmt.Sprintf(" of %d", len(s.Names))] = true
+				}
+				if b > 0 {
+					nb++
+					t := "untyped"
+					if s.Typed {
+						t = "typed"
+					}
+					all := "some names blank"
+					if b == len(s.Names) {
+						all = "all names blank"
+					}
+					main := "main stream"
+					if c.region != "" {
+						main = "region streams"
+					}
+					seenKinds[fmt.Sprintf("decl:blank %s %s of %d, %s, %s", t, k, len(s.Names), all, main)] = true
+				}
+			}
+			if nb > 1 {
+				seenKinds["decl:several declarations with blanks in a package"] = true
+			}
+		}
+		for _, p := range c.prog.Pkgs {
 			nInit := 0
 			for _, d := range p.modelDecls() {
 				k := "special:" + d.Kind + "/" + d.Name
@@ -1638,7 +1788,7 @@ func runC15(args []string) error {
 	}
 	sm.DistinctNontriv = len(distinct)
 	sm.Rule = "seeded random programs: 5-12 package-level var specs in the entry package (2-5 in imported ones) with direct references, references through 1-4 function/method bodies " +
-		"(calls, function values, method values and expressions, recursion), var x, y = f(), var x, y = e1, e2, variables without initialiser, misleading identifiers (shadowing parameters, struct keys), " +
+		"(calls, function values, method values and expressions, recursion), var x, y = f(), var x, y = e1, e2, variables without initialiser, misleading identifiers (shadowing parameters, struct keys), explicit types (var x int = e), blank variables (var _ = e, var _ int = e, blanks inside var x, _ = e1, e2 and var _, x = f(), several declarations with blanks), " +
 		"1-3 files, 0-4 init functions per package spread over the files, main, look-alikes of the special names (methods init/main/Init with value and pointer receivers, func Init, func main and var main = func in non-main packages, package variables holding function literals, locals and struct fields named init/main, local function literals named init/main, helpers and methods called from init functions and main), 0-3 imported source packages; every initialiser prints a mark; distinct = distinct source text (program name removed); " +
 		"non-trivial = more than one package, or a package that is not already in dependency order, or that has functions"
 	return sm.write(*out)
